@@ -122,8 +122,11 @@ func (q *Queue[T]) doAdd(item T) error {
 		q.nempty.Signal()
 	}
 
-	// for the iterator, signal for any updates
-	q.nupdates.Signal()
+	// for the iterators (and blocked producers, which share the
+	// condition and go back to sleep if there is still no room):
+	// wake everyone, a single Signal may be consumed by a waiter
+	// that cannot use it.
+	q.nupdates.Broadcast()
 
 	return nil
 }
